@@ -57,6 +57,7 @@ type RunStats struct {
 	Aborted      map[string]int
 	EngineErrs   map[string]int
 	Unknowns     map[string]int
+	Assumed      map[string]int
 	Cover        map[string]int
 	Violations   []*Violation
 	Leaves       []Leaf
@@ -109,6 +110,15 @@ func (ex *Explorer) push(p []int) {
 func (ex *Explorer) noteUnknown(kind string) {
 	ex.mu.Lock()
 	ex.stats.Unknowns[kind]++
+	ex.mu.Unlock()
+}
+
+func (ex *Explorer) noteAssumed(what string) {
+	ex.mu.Lock()
+	if ex.stats.Assumed == nil {
+		ex.stats.Assumed = map[string]int{}
+	}
+	ex.stats.Assumed[what]++
 	ex.mu.Unlock()
 }
 
